@@ -1,17 +1,17 @@
 CONSTANTS
   Sessions = {"s1", "s2"}
   Mailboxes = {"A"}
-  Flags <- OnlyDeleted
-  MaxMsgs = 3
-  MaxUid = 3
+  Flags <- BothFlags
+  MaxMsgs = 2
+  MaxUid = 2
   MaxQueue = 3
   Kinds <- KExpunge
-  SeqSets <- SetsWide
-  UidSets <- SetsWide
+  SeqSets <- Sets3
+  UidSets <- Sets3
   UidForms <- SeqOnly
   AppendFlags <- NoFlagsOnly
   AppendBoxes <- OnlyA
-  StoreOps <- Plus
+  StoreOps <- PlusMinus
   IdleAny = FALSE
 INIT GenInit
 NEXT GenNext
